@@ -1,10 +1,12 @@
 import PonyVerif.Drive.Util
 import PonyVerif.Drive.C09
+import PonyVerif.Drive.C10Key
 import PonyVerif.Model.SetCount
 /-
   Line-protocol entry for the SetData bookkeeping model (C10, `count ± added ∓ removed`).
   request : {"op":"run","cfg":{"m2m":b,"owning":b,"fixRemove":b,"fixFlush":b},"db":[ids],
              "ops":[{"k":"seen"|"revAdd"|"revRemove"|"add"|"remove"|"contains"|"containsRev","x":id} | {"k":"loadAll"|"count"|"flush"|"nonzero"|"select"} | {"k":"isEmpty","probe":id|null}]}
+            a request with "model":"key" is the request of Drive/C10Key (Model/KeyLookup.lean);
             a request with "model":"session" is the request of Drive/C09 (the session model shared with C09) and is forwarded
   reply   : {"steps":[{"err":null|"assertion"|"phantom","ret":int|null,"valid":b,"safe":b,
                        "sd":{"items":[..],"fully":b,"count":int|null,"added":[..],"removed":[..],"absent":[..]},"db":[..],"spec":[..]}]}
@@ -37,6 +39,7 @@ def jSd (sd : SetData) : Json := Json.mkObj [
 
 def handle (j : Json) : Except String Json := do
   if (j.getObjValAs? String "model").toOption == some "session" then PonyVerif.Drive.C09.handle j else
+  if (j.getObjValAs? String "model").toOption == some "key" then PonyVerif.Drive.C10Key.handle j else
   let op ← argStr j "op"
   match op with
   | "run" =>
